@@ -12,6 +12,7 @@ import (
 
 	"github.com/tink-crypto/tink-go/v2/insecurecleartextkeyset"
 	"github.com/tink-crypto/tink-go/v2/internal/verifharness/hlib"
+	"github.com/tink-crypto/tink-go/v2/key"
 	"github.com/tink-crypto/tink-go/v2/keyderivation"
 	"github.com/tink-crypto/tink-go/v2/keyset"
 	"github.com/tink-crypto/tink-go/v2/prf"
@@ -169,6 +170,9 @@ func cross1(class string, p, q any) string {
 		P := p.(keyderivation.KeysetDeriver)
 		h, e1 := P.DeriveKeyset(cl(a))
 		return fmt.Sprintf("kd=%s%s", errS(e1), handleHexIDs(h, false))
+	case "keyderiver":
+		k, e1 := p.(keyDeriver).DeriveKey(cl(a))
+		return fmt.Sprintf("keyderiver=%s%s", errS(e1), serializeHex(k))
 	case "prehash":
 		P := p.(tink.Prehash)
 		o1, e1 := P.ComputePrehash(cl(m))
@@ -183,6 +187,11 @@ func cross1(class string, p, q any) string {
 		return fmt.Sprintf("prehashsigner=%s%s%s", errS(e0), errS(e1), errS(e2))
 	}
 	return "cross:unsupported-" + class
+}
+
+// keyDeriver is the method set of keyderivation/internal/keyderiver.KeyDeriver.
+type keyDeriver interface {
+	DeriveKey(salt []byte) (key.Key, error)
 }
 
 type prehashPartner struct {
@@ -204,6 +213,8 @@ type primSrc struct {
 	// very slow primitives (SLH-DSA "s" signing, ~1 s per signature): no cross observation and no
 	// repeated calls
 	minimal bool
+	// rndCT: ciphertexts of this key cannot be reproduced from the seed (ML-KEM, X-Wing)
+	rndCT bool
 }
 
 type msgSet struct{ pt, ad []byte }
@@ -251,7 +262,11 @@ func (e *engine) primOps(src primSrc, rng *hlib.Rng) {
 		}
 	}
 	run := func(op string, det bool, ins []in1, call func(p any, ins [][]byte) ([][]byte, string)) {
-		e.run(spec{api: src.api + "/" + op, extra: src.extra, ins: ins, det: det, mk: mkInst(call), lays: src.lays, once: src.minimal})
+		sp := spec{api: src.api + "/" + op, extra: src.extra, ins: ins, det: det, mk: mkInst(call), lays: src.lays, once: src.minimal}
+		if src.rndCT && len(ins) > 0 && ins[0].name == "ciphertext" {
+			sp.rndIn = map[int]bool{0: true}
+		}
+		e.run(sp)
 	}
 	out1 := func(b []byte, err error) ([][]byte, string) {
 		if err != nil {
@@ -375,6 +390,14 @@ func (e *engine) primOps(src primSrc, rng *hlib.Rng) {
 					return nil, "err"
 				}
 				return nil, handleHexIDs(h, false)
+			})
+		case "keyderiver":
+			run("DeriveKey", true, []in1{{"salt", pt}}, func(p any, ins [][]byte) ([][]byte, string) {
+				k, err := p.(keyDeriver).DeriveKey(ins[0])
+				if err != nil {
+					return nil, "err"
+				}
+				return nil, serializeHex(k)
 			})
 		case "prehash":
 			run("ComputePrehash", true, []in1{{"data", pt}}, func(p any, ins [][]byte) ([][]byte, string) {
